@@ -769,8 +769,16 @@ def run_into(chk: Check, pid: str, tier: str) -> None:
     ojobs = [(('O' + j[0]),) + tuple(j[1:]) for j in jobs[:6 if quick else 60]]
     otraces = run_optimized('harness.play', 'board_trace', ojobs)
     chk.extra['boards_under_python_O'] = len(ojobs)
-    traces = pmap(board_trace, jobs, chunk=4) + otraces
-    jobs = jobs + ojobs
+    # ... and in interpreters with other hash seeds: sets of cards are then
+    # iterated in other orders
+    hjobs_all, htraces = [], []
+    for hs in ('1', '4242') if quick else ('1', '4242', '77', '123456'):
+        hjobs = [((f'H{hs}.' + j[0]),) + tuple(j[1:]) for j in jobs[6:12 if quick else 66]]
+        htraces += run_optimized('harness.play', 'board_trace', hjobs, flags=(), env={'PYTHONHASHSEED': hs})
+        hjobs_all += hjobs
+    chk.extra['boards_under_other_hash_seeds'] = len(hjobs_all)
+    traces = pmap(board_trace, jobs, chunk=4) + otraces + htraces
+    jobs = jobs + ojobs + hjobs_all
     events: List[Dict[str, Any]] = []
     for evs in traces:
         events.extend(evs)
